@@ -7,7 +7,10 @@
 (* put out.  A trace is accepted iff it is a behaviour of the decoder       *)
 (* machine of LZW.tla (same step classification Kind, same width rule       *)
 (* Bump, from LZWOps) over a table abstracted to the lengths of its         *)
-(* entries; WidthInv and TableBound are evaluated at every code.            *)
+(* entries; WidthInv and TableBound are evaluated at every code.  A trace   *)
+(* carries the writer's /EarlyChange (ec) and whether the writer defers     *)
+(* the clear-table code beyond a full table (defer).  Nothing may be        *)
+(* decoded after EOD.                                                       *)
 (* A rejected trace is a deadlock whose last state names trace t and the    *)
 (* number l of events that could be explained.                              *)
 (***************************************************************************)
@@ -33,11 +36,12 @@ Step(kind) == /\ t <= N /\ l < Len(Cur.ev)
 
 Clear == Step("clear") /\ lens' = Base /\ prev' = 0 /\ nbits' = MinBits
          /\ Ev.o = 0 /\ Ev.t = FirstFree
-EOD   == Step("eod") /\ Ev.o = 0 /\ Ev.t = Len(lens) /\ UNCHANGED <<lens, prev, nbits>>
+EOD   == Step("eod") /\ Ev.o = 0 /\ Ev.t = Len(lens) /\ l + 1 = Len(Cur.ev)      \* EOD is the last code looked at
+         /\ UNCHANGED <<lens, prev, nbits>>
 First == Step("first") /\ Ev.o = lens[Ev.c + 1] /\ Ev.o > 0 /\ prev' = Ev.o /\ Ev.t = Len(lens)
          /\ UNCHANGED <<lens, nbits>>
 Grow(o) == /\ lens' = Append(lens, prev + 1) /\ Ev.t = Len(lens) + 1
-           /\ nbits' = Bump(Len(lens) + 1, nbits)
+           /\ nbits' = BumpEC(Len(lens) + 1, nbits, Cur.ec)
            /\ Ev.o = o /\ o > 0 /\ prev' = o
 Known == Step("known") /\ Grow(lens[Ev.c + 1])
 KwKwK == Step("kwkwk") /\ Grow(prev + 1)
@@ -52,6 +56,6 @@ Next == Clear \/ EOD \/ First \/ Known \/ KwKwK \/ EndTrace \/ Finished
 Spec == Init /\ [][Next]_vars
 
 \* evaluated at every code of every trace
-WidthInv   == Len(lens) >= FirstFree => nbits = WidthFor(Len(lens))
-TableBound == Len(lens) <= TableMax
+WidthInv   == (t <= N /\ Len(lens) >= FirstFree) => nbits = WidthForEC(Len(lens), Cur.ec)
+TableBound == (t <= N /\ ~Cur.defer) => Len(lens) <= TableMax
 =============================================================================
